@@ -2,6 +2,7 @@ use crate::{Prop, Tier};
 
 pub mod c01;
 pub mod c02;
+pub mod c03;
 pub mod c04;
 pub mod c05;
 pub mod c06;
@@ -21,6 +22,7 @@ pub fn get(id: &str, tier: Tier, seed: u64) -> Option<Prop> {
     Some(match id {
         "C01" => c01::prop(tier, seed),
         "C02" => c02::prop(tier, seed),
+        "C03" => c03::prop(tier, seed),
         "C04" => c04::prop(tier, seed),
         "C05" => c05::prop(tier, seed),
         "C06" => c06::prop(tier, seed),
